@@ -6,8 +6,8 @@ import ctximpl
 
 KIND = "ctx"
 SPECS = ["C14"]
-THEOREMS = ["C14.inv_runSt", "C14.I1", "C14.I2_alternation", "C14.I2_no_leak", "C14.I2", "C14.I3", "C14.final_ups",
-            "C14.final_quiet"]
+THEOREMS = ["C14.inv_runSt", "C14.I1", "C14.I2_alternation", "C14.I2_no_leak", "C14.I2", "C14.I3", "C14.I4", "C14.I5",
+            "C14.I6_order", "C14.spec_partial", "C14.final_ups", "C14.final_quiet"]
 LEAN_MODULES = ["TbotVerif.Props.C14"]
 QUICK_N, THOROUGH_N = 20000, 120000
 QUICK_BUDGET, THOROUGH_BUDGET = 45, 600
